@@ -136,7 +136,7 @@ def st_fitted(draw):
 @st.composite
 def st_unfitted(draw):
     state = draw(st.sampled_from(["fresh", "preprocessed", "preprocessed", "edited", "edited", "edited",
-                                  "repreprocessed", "unsuccessful", "unsuccessful"]))
+                                  "repreprocessed", "details_after_fit", "unsuccessful", "unsuccessful"]))
     src = st_src(draw, allow_bad=False)
     return {"state": state, "src": src,
             "pre": draw(st.sampled_from(PRE_SETS)),
@@ -564,6 +564,10 @@ def check_unfitted(case, ctx):
                     fp[key] = new
                     classes.append("edit_" + key)
                     desc["edit"] = key
+                elif state == "details_after_fit":
+                    # the same pipeline again after the fit, this time asking for the details of the steps
+                    idnt.apply_preprocessing(copy.deepcopy(idnt.preprocessing), copy.deepcopy(idnt.preprocessing_options),
+                                             ret_details=True)
                 else:  # repreprocessed: a different pipeline after the fit drops the results
                     idnt.apply_preprocessing(list(idnt.preprocessing) + ["correct_force_offset"]
                                              if "correct_force_offset" not in idnt.preprocessing
@@ -576,6 +580,13 @@ def check_unfitted(case, ctx):
         reached = fp.get("success") is False
     else:
         reached = "success" not in fp
+    if state == "details_after_fit" and not reached:
+        # whether the fit survives the request is not this property's business; that the features can be computed is
+        ctx.note_case(case, nontrivial=True, classes=classes + ["fit_kept"])
+        from nanite.rate.features import IndentationFeatures as IF
+        with ctx.no_raise("compute-raises", desc):
+            IF.compute_features(idnt)
+        return
     ctx.note_case(case, nontrivial=reached, classes=classes + (["reached"] if reached else ["state_not_reached"]))
     if not reached:
         return
